@@ -169,7 +169,11 @@ func (r FileReplacer) Replace(d data.Data, cl Changelog) (*ast.File, error) {
 		file.Name.Name = r.Package
 	}
 
-	for _, m := range fd.Matches {
+	// Matches were recorded parents first. A match inside a matched
+	// statement block is addressed through that block, which its own
+	// replacement rebuilds, so inner matches are replaced first.
+	for i := len(fd.Matches) - 1; i >= 0; i-- {
+		m := fd.Matches[i]
 		v := reflect.Indirect(reflect.ValueOf(m.parent)).FieldByName(m.name)
 		if !v.IsValid() {
 			// This is a bug in our code.
